@@ -6,6 +6,6 @@ git -C $WT checkout -q -- . || exit 2
 PYTHONPATH=$WT /venv/bin/python $M/demo.py > $M/demo_clean.log 2>&1; c0=$?
 git -C $WT apply $M/patch.diff || { echo "$M: patch does not apply"; exit 2; }
 PYTHONPATH=$WT /venv/bin/python $M/demo.py > $M/demo_mut.log 2>&1; c1=$?
-(cd $WT && PYTHONPATH=$WT /venv/bin/python -m pytest -q -p no:cacheprovider --timeout=900 -q --deselect tests/estimate/attitude/test_attitude.py::Test_Attitude::test_generate_code --deselect tests/estimate/attitude/test_attitude.py::Test_Attitude::test_replay 2>&1 | grep -E "[0-9]+ (passed|failed)" | tail -1 > $M/tests_mut.log)
+(cd $WT && PYTHONPATH=$WT /venv/bin/python -m pytest -q -p no:cacheprovider --timeout=900 --deselect tests/estimate/attitude/test_attitude.py::Test_Attitude::test_generate_code --deselect tests/estimate/attitude/test_attitude.py::Test_Attitude::test_replay 2>&1 | grep -E "[0-9]+ (passed|failed)" | tail -1 > $M/tests_mut.log)
 git -C $WT checkout -q -- .
 echo "$M: demo_clean_exit=$c0 demo_mut_exit=$c1 tests: $(tail -1 $M/tests_mut.log)"
